@@ -44,8 +44,9 @@ S1(e, n, kinds) == {Scen(<<e>>, k, MkFlow(xs, hs)) :
 C2(e) == {e[1] - 1, e[1], e[1] + 1, e[2], e[Len(e)]}
 S2(e1, e2, n, kinds) == {Scen(<<e1, e2>>, k, MkFlow(xs, HAlt(n))) :
                            k \in kinds, xs \in SeqsUpTo(C2(e1) \X C2(e2), n)}
-Quick(u) == S1(E2, 2, AllKinds) \cup S1(E3, 3, AllKinds) \cup S1(E4, 2, SomeKinds)
-            \cup S2(E3, E3, 2, SomeKinds) \cup S2(E3, E2, 2, {"collect", "pervalue"})
+S1Alt(e, n, kinds) == {sc \in S1(e, n, kinds) : \A i \in 1..Len(sc.flow) : sc.flow[i].h = (i % 2 = 0)}
+Quick(u) == S1(E2, 2, AllKinds) \cup S1(E3, 2, AllKinds) \cup S1Alt(E3, 3, SomeKinds) \cup S1(E4, 2, SomeKinds)
+            \cup S2(E3, E3, 2, {"collect2", "mutate"}) \cup S2(E3, E2, 2, {"collect", "pervalue"})
 Thorough(u) == S1(E2, 3, AllKinds) \cup S1(E3, 4, AllKinds) \cup S1(E4, 3, AllKinds)
                \cup S2(E3, E3, 2, AllKinds) \cup S2(E3, E2, 3, SomeKinds) \cup S2(E2, E4, 2, AllKinds)
 Tiny(u) == S1(E3, 2, {"collect2", "nonempty"}) \cup S2(E3, E2, 1, {"collect"})
